@@ -101,7 +101,10 @@ class Dom:
             return None
         if isinstance(e, ast.Call):
             name = au.call_name(e)
-            if name in ('abs', 'int', '_flip', 'str'):
+            if name == '_flip' and e.args:
+                # the sign of the second argument on the first one
+                return self.of(e.args[0], env)
+            if name in ('abs', 'int', 'str'):
                 ds = {self.of(a, env) for a in e.args} - {None}
                 return ds.pop() if len(ds) == 1 else None
             if name in sp.calls:
@@ -194,7 +197,21 @@ class Dom:
         self.R.count('paths', len(plist))
         for path in plist:
             env = dict(sp.params)
+            origin = dict()     # local -> the name it is abs() / a copy of
             for it in path:
+                if it[0] == 'stmt' and isinstance(
+                        it[1], ast.Assign) and len(
+                            it[1].targets) == 1 and isinstance(
+                                it[1].targets[0], ast.Name):
+                    v = it[1].value
+                    src = au.is_abs_of(v) or (
+                        v.id if isinstance(v, ast.Name) else None)
+                    tgt = it[1].targets[0].id
+                    origin.pop(tgt, None)
+                    for k in [k for k, o in origin.items() if o == tgt]:
+                        del origin[k]
+                    if src:
+                        origin[it[1].targets[0].id] = src
                 if it[0] == 'test' and it[2] is True:
                     # `abs(u) == 1`: the terminal is the same constant in
                     # every domain
@@ -206,8 +223,9 @@ class Dom:
                         nm = au.is_abs_of(t.left) or (
                             t.left.id if isinstance(t.left, ast.Name)
                             else None)
-                        if nm:
+                        while nm:
                             env.pop(nm, None)
+                            nm = origin.get(nm)
                 if it[0] == 'loop' and isinstance(it[1], ast.For) and \
                         it[2] >= 1:
                     node = it[1]
